@@ -498,10 +498,12 @@ def correspond(ctx, corr):
     cases = []
     corpus = ctx.verif / "corpus" / "C05"
     ncorpus = 0
+    corpus_names = []
     if corpus.exists():
         for f in sorted(corpus.glob("lin-*.txt")):
             cases.append([l for l in f.read_text().split("\n") if l and not l.startswith("#")])
             metas.append(None)
+            corpus_names.append(f.name)
             ncorpus += 1
     for c in corner_cases():
         cases.append(c)
@@ -546,6 +548,16 @@ def correspond(ctx, corr):
                 corr.count("throw_" + l.split()[1])
         if meta is None:
             corr.case(key=("corner", i), sample={"ops": c[:8], "impl": impl[i][:8]} if i == ncorpus else None)
+            if i < ncorpus and corpus_names[i] == "lin-r4-cut-witness.txt":
+                # clause 6 ("excluded only where the function is singular"): the witness of C05_cut_excludes_nonsingular,
+                # a 0.5 um sight along y (0 < d < 1e-6): the Distance row must be the derivative (y_to: +1, x_to: 0, rhs 0)
+                L = next((parse_lin(l) for l in impl[i] if parse_lin(l)), None)
+                want = {1: 0.0, 2: -1.0, 3: 0.0, 4: 1.0}
+                if L is None or abs(L["rhs"]) > 1e-9 or any(abs(v - want.get(k, 0.0)) > 1e-9 for k, v in L["rows"]):
+                    corr.fail("inside the cut d < 1e-6 m (not singular: d = 5e-7) the Distance row is not the partial derivatives",
+                              {"stream": "lin", "ops": c, "detail": {"row": None if L is None else L["rows"], "rhs": None if L is None else L["rhs"],
+                                                                    "expected_row": sorted(want.items()), "expected_rhs": 0.0}},
+                              "bearing_distance (cut 1e-6)", "corpus/C05/lin-r4-cut-witness.txt")
             for l in impl[i]:
                 L = parse_lin(l)
                 if L and abs(L["rhs"]) == 200e4:
@@ -1146,6 +1158,8 @@ def rng_family(ctx, i):
 def classify(ctx, failure):
     d = (failure.replay or {}).get("detail") or {}
     ops = " ".join((failure.replay or {}).get("ops") or [])
+    if failure.site == "bearing_distance (cut 1e-6)" and failure.what.startswith("inside the cut d < 1e-6 m"):
+        return "C05-cut-wider-than-singular"
     return None
 
 
